@@ -5,8 +5,10 @@ From EQL Require Import Base.
 
 Definition oid := nat.
 
-(* atoms: int, bool, None, str, object identity; containers: a tuple/list of atoms *)
-Inductive atom := AInt (z : Z) | ABool (b : bool) | ANone | AStr (s : string) | AObj (o : oid).
+(* atoms: int, bool, None, str, object identity, and - only as an ELEMENT of a container - a tuple of ints (one level of
+   nesting: a collection of collections); containers: a tuple/list of atoms.  A nested tuple taken out of its container
+   (flatten, indexing) is the container value VTup again ([lift]); VA (ATup _) is not a value the models produce. *)
+Inductive atom := AInt (z : Z) | ABool (b : bool) | ANone | AStr (s : string) | AObj (o : oid) | ATup (l : list Z).
 Inductive val := VA (a : atom) | VTup (l : list atom).
 
 Definition VObj (o : oid) : val := VA (AObj o).
@@ -16,6 +18,13 @@ Definition VInt (z : Z) : val := VA (AInt z).
 Definition num_of (a : atom) : option Z :=
   match a with AInt z => Some z | ABool b => Some (if b then 1 else 0)%Z | _ => None end.
 
+Fixpoint zs_eqb (l m : list Z) : bool :=
+  match l, m with
+  | [], [] => true
+  | x :: l', y :: m' => Z.eqb x y && zs_eqb l' m'
+  | _, _ => false
+  end.
+
 Definition aeqb (a b : atom) : bool :=
   match num_of a, num_of b with
   | Some x, Some y => Z.eqb x y
@@ -24,6 +33,7 @@ Definition aeqb (a b : atom) : bool :=
     | ANone, ANone => true
     | AStr s, AStr t => String.eqb s t
     | AObj o, AObj p => Nat.eqb o p            (* @dataclass(eq=False): identity *)
+    | ATup l, ATup m => zs_eqb l m
     | _, _ => false
     end
   end.
@@ -47,16 +57,28 @@ Definition veqb (v w : val) : bool :=
    model does not describe; the definition is total so that the models are functions, and the
    "Python would raise" inputs are excluded by the generators (documented gap, see DESIGN.md). *)
 Definition rank (a : atom) : Z :=
-  match a with AInt z => z | ABool b => if b then 1 else 0 | ANone => 0 | AStr _ => 0 | AObj o => Z.of_nat o end.
+  match a with AInt z => z | ABool b => if b then 1 else 0 | ANone => 0 | AStr _ => 0 | AObj o => Z.of_nat o
+             | ATup l => Z.of_nat (List.length l) end.
 Definition vrank (v : val) : Z := match v with VA a => rank a | VTup l => Z.of_nat (List.length l) end.
 Definition vltb (v w : val) : bool := Z.ltb (vrank v) (vrank w).
 Definition vleb (v w : val) : bool := Z.leb (vrank v) (vrank w).
 
+(* a nested tuple outside its container is a container value; a container of ints can be an element *)
+Definition lift (a : atom) : val := match a with ATup l => VTup (map AInt l) | _ => VA a end.
+Fixpoint ints_of (l : list atom) : option (list Z) :=
+  match l with
+  | [] => Some []
+  | AInt z :: l' => match ints_of l' with Some zs => Some (z :: zs) | None => None end
+  | _ => None
+  end.
+Definition unlift (v : val) : option atom :=
+  match v with VA a => Some a | VTup l => match ints_of l with Some zs => Some (ATup zs) | None => None end end.
+
 (* item in container *)
 Definition vin (item container : val) : bool :=
-  match container, item with
-  | VTup l, VA a => existsb (aeqb a) l
-  | _, _ => false
+  match container with
+  | VTup l => match unlift item with Some a => existsb (aeqb a) l | None => false end
+  | _ => false
   end.
 
 (* bool(v) *)
@@ -64,6 +86,7 @@ Definition atruthy (a : atom) : bool :=
   match a with
   | AInt z => negb (Z.eqb z 0) | ABool b => b | ANone => false
   | AStr s => negb (String.eqb s EmptyString) | AObj _ => true
+  | ATup l => match l with [] => false | _ => true end
   end.
 Definition truthy (v : val) : bool :=
   match v with VA a => atruthy a | VTup l => match l with [] => false | _ => true end end.
@@ -87,7 +110,7 @@ Definition cmpop_eqb (a b : cmpop) : bool :=
 (* elements of a value as `flatten` / `concatenate` see it: a non-iterable counts as a single element
    (utils.is_iterable: str is NOT iterable) *)
 Definition elements (v : val) : list val :=
-  match v with VA a => [VA a] | VTup l => map VA l end.
+  match v with VA a => [VA a] | VTup l => map lift l end.
 Definition atoms_of (v : val) : list atom :=
   match v with VA a => [a] | VTup l => l end.
 
@@ -99,7 +122,7 @@ Inductive mapping := MField (f : nat) | MIdx (k : nat).
 Definition apply_map (h : heap) (m : mapping) (v : val) : val :=
   match m, v with
   | MField f, VA (AObj o) => get_field h o f
-  | MIdx k, VTup l => VA (nth k l ANone)
+  | MIdx k, VTup l => lift (nth k l ANone)
   | _, _ => VA ANone
   end.
 
@@ -109,6 +132,7 @@ Definition show_atom (a : atom) : string :=
   match a with
   | AInt z => "i" ++ show_Z z | ABool b => if b then "bT" else "bF" | ANone => "N"
   | AStr s => "s<" ++ s ++ ">" | AObj o => "o" ++ show_nat o
+  | ATup l => "(" ++ String.concat "," (map (fun z => "i" ++ show_Z z) l) ++ ")"
   end.
 Definition show_val (v : val) : string :=
   match v with VA a => show_atom a | VTup l => "(" ++ String.concat "," (map show_atom l) ++ ")" end.
